@@ -9,7 +9,7 @@
    ptype   : (n generic...)                 condition : (name expr ((param ptype)...) (module file?)?)
    model   : (schema (typedef...) ((key condition)...)) *)
 From Verif Require Import Base.Str Base.Sx Base.Outcome Model.Ast Model.Token Model.Lexer Model.Parser
-  Model.Listener Model.Printer Model.Transform Spec.Expressible Spec.Normalize.
+  Model.Listener Model.Printer Model.Transform Spec.Expressible Spec.Normalize Spec.DocDomain.
 
 Fixpoint sx_userset (u : userset) : sx :=
   match u with
@@ -220,6 +220,8 @@ Definition dispatch_transform (op : N) (args : list sx) : option sx :=
   | 206, [SA via; d] => option_map (fun d => sx_rt (roundtrip 3 0 (negb (via =? 0)) d)) (un_str d)
   | 203, [d] => option_map (fun d => sx_str (prepass d)) (un_str d)
   | 207, [m] => option_map sx_spec_model (un_model m)
+  (* op 208: the document-level round-trip theorem evaluated on a model: (applies? , the model it says comes back) *)
+  | 208, [m] => option_map (fun m => SL [SA (if model_okb m then 1 else 0); sx_model (canonical m)]) (un_model m)
   | 204, [ts] => option_map (fun ts => sx_dsl_result (parse_walk ts)) (un_listof un_tok ts)
   | _, _ => None
   end.
